@@ -1,6 +1,7 @@
 from collections import defaultdict
 from collections.abc import Callable, Iterator
 from dataclasses import dataclass, field
+from math import lcm
 from typing import cast
 
 from minimalloc import Buffer, Problem  # pyright: ignore[reportMissingTypeStubs]
@@ -225,6 +226,7 @@ class MiniMallocate(RewritePattern):
     def match_and_rewrite(self, func_op: func.FuncOp, rewriter: PatternRewriter):
         buffers: list[Buffer] = []
         buffer_ops: dict[str, snax.Alloc] = {}
+        alignments: dict[str, int] = {}
         uses: dict[Operation, list[Buffer]] = defaultdict(list)
 
         def get_top_level_op(op: Operation) -> Operation:
@@ -282,6 +284,7 @@ class MiniMallocate(RewritePattern):
                 buffer = Buffer(str(hash(op)), i, i, size, alignment)
                 buffers.append(buffer)
                 buffer_ops[buffer.id] = op
+                alignments[buffer.id] = alignment
 
                 # add uses to the use list
                 for use in get_all_uses(op.results[0]):
@@ -312,10 +315,13 @@ class MiniMallocate(RewritePattern):
         )
         for memory in memory_spaces:
             buffers_subset = [buffer for buffer in buffers if buffer_ops[buffer.id].memory_space == memory.attribute]
-            problem = Problem(buffers_subset, memory.capacity)
+            # the solver aligns the offsets it hands out: count them from an address that is aligned for all buffers
+            base_alignment = lcm(*(alignments[buffer.id] or 1 for buffer in buffers_subset))
+            base = -(-memory.start // base_alignment) * base_alignment
+            problem = Problem(buffers_subset, memory.capacity - (base - memory.start))
             solution = problem.solve()
             for buffer, offset in zip(buffers_subset, solution):
-                pointer_result[buffer.id] = offset + memory.start
+                pointer_result[buffer.id] = offset + base
 
         # Now, generate constant ops for the pointers
         for buffer in buffers:
